@@ -29,6 +29,9 @@ MANIFEST = {
 F = "anstyle_wincon::ansi::write_colored"
 
 
+_RES = [None]
+
+
 def classify_all(call):
     """Effects of a call on `stream`, in order (one write_fmt may render several codes)."""
     call = hir.simp(call)
@@ -47,6 +50,8 @@ def classify_all(call):
                 out.append(("FMT?", str(p)))
                 continue
             a = hir.simp(args[p[1]])
+            if _RES[0] is not None:
+                a = _RES[0].res(hir.peel(a))      # `let code = fg.render_fg(); write!(stream, "{code}")`
             if hir.is_call(a, "anstyle::color::AnsiColor::render_fg"):
                 out.append(("FG", hir.local_name(a["args"][0])))
             elif hir.is_call(a, "anstyle::color::AnsiColor::render_bg"):
@@ -77,97 +82,103 @@ def rule_order(facts, rep):
     rep.fn(b["path"])
     names = [p.get("name") for p in b["params"]]
     rep.check(names == ["stream", "fg", "bg", "data"], "order", b["path"], "signature", f"{names}", loc(b))
+    pid = {p["name"]: p.get("id") for p in b["params"]}
     paths = hir.enumerate_paths(b["hir"])
-    lets = {}
-    for n in hir.walk(b["hir"]):
-        if n.get("k") == "let" and n["pat"].get("k") == "pbind" and "init" in n:
-            lets[n["pat"]["name"]] = n["init"]
+    R = hir.Resolver(b["hir"])
+    _RES[0] = R
+    SOME, NONE = "core::option::Option::Some", "core::option::Option::None"
     seen_cases = set()
-    n_ok_paths = 0
-    for p in paths:
-        events = []
-        for t in p.trace:
-            if t[0] == "eval":
-                for c in classify_all(t[1]):
-                    events.append((c, t[1]))
-        # which of fg/bg are present on this path
-        flags = {}
-        for t in p.trace:
-            if t[0] == "cond":
-                c = hir.simp(t[1])
-                if c.get("k") == "letexpr" and hir.last_seg(hir.pat_path(c["pat"])) == "Some" and hir.local_name(c["init"]) in ("fg", "bg"):
-                    flags[hir.local_name(c["init"])] = t[2]
-        for fgs, bgs in itertools.product((False, True), repeat=2):
-            if flags.get("fg", fgs) != fgs or flags.get("bg", bgs) != bgs:
-                continue
+    for fgs, bgs in itertools.product((False, True), repeat=2):
+        present = {pid["fg"]: fgs, pid["bg"]: bgs}
 
-            def av(node):
-                node = hir.simp(node)
-                if node.get("k") == "local" and node["name"] in lets:
-                    return hir.bool_eval(lets[node["name"]], av)
-                if hir.is_call(node, "Option::<T>::is_some") and hir.local_name(node["args"][0]) in ("fg", "bg"):
-                    return {"fg": fgs, "bg": bgs}[hir.local_name(node["args"][0])]
-                if node.get("k") == "letexpr":
-                    return {"fg": fgs, "bg": bgs}[hir.local_name(node["init"])]
+        def val(e, depth=0):
+            e = hir.simp(e)
+            k = e.get("k")
+            if k == "local":
+                if e.get("id") in present:
+                    return ("enum", SOME if present[e["id"]] else NONE)
+                init = R.res(e)
+                if init is not e and depth < 5:
+                    return val(init, depth + 1)
                 return None
-
-            feasible = all(hir.bool_eval(t[1], av) == t[2] for t in p.trace if t[0] == "cond")
-            # `match (fg, bg) { (Some(fg), None) => .. }` form: the arm on this path must be the first one matching the case
-            for t in p.trace:
-                if t[0] == "arm":
-                    sc = hir.simp(t[1])
-                    names = [hir.local_name(x) for x in sc.get("es", [])] if sc.get("k") == "tuple" else [hir.local_name(sc)]
-                    if not all(n in ("fg", "bg") for n in names):
-                        continue
-                    vals = [{"fg": fgs, "bg": bgs}[n] for n in names]
-
-                    def pm(pat, vals=vals, tuple_=(sc.get("k") == "tuple")):
-                        ps = pat.get("pats", []) if (tuple_ and pat.get("k") == "ptuple") else [pat]
-                        if pat.get("k") in ("pwild", "pbind"):
-                            return True
-                        if len(ps) != len(vals):
-                            return True
-                        for q, v in zip(ps, vals):
-                            seg = hir.last_seg(hir.pat_path(q)) if hir.pat_path(q) else None
-                            if seg == "Some" and not v:
-                                return False
-                            if seg == "None" and v:
-                                return False
-                        return True
-                    if not pm(t[2]) or any(pm(q) for q in t[3]):
-                        feasible = False
-            if not feasible:
-                continue
-            if p.exit == "ret-err":
-                continue
-            if p.exit != "value":
+            if k == "tuple":
+                vs = [val(x, depth + 1) for x in e["es"]]
+                return None if any(v is None for v in vs) else ("tuple",) + tuple(vs)
+            if k == "call" and hir.callee(e).split("::")[-1] in ("is_some", "is_none") and e.get("args"):
+                v = val(e["args"][0], depth + 1)
+                if v is not None and v[0] == "enum":
+                    return ("bool", (v[1] == SOME) == (hir.callee(e).endswith("is_some")))
+            if k == "lit" and e.get("t") == "bool":
+                return ("bool", e["v"])
+            if (k == "bin" and e.get("op") in ("And", "Or")) or (k == "un" and e.get("op") == "Not"):
+                try:
+                    def at(n):
+                        v = val(n, depth + 1)
+                        return v[1] if v is not None and v[0] == "bool" else None
+                    return ("bool", hir.bool_eval(e, at))
+                except Unrecognised:
+                    return None
+            if k == "match" and e.get("src") == "Normal" and all(hir.lit_val(a["body"]) in (True, False) for a in e["arms"]):
+                v = val(e["scrut"], depth + 1)      # matches!(..)
+                if v is not None:
+                    for a in e["arms"]:
+                        m = hir.pat_matches(a["pat"], v)
+                        if m is None:
+                            return None
+                        if m:
+                            return ("bool", hir.lit_val(a["body"]))
+            return None
+        case = f"fg={'Some' if fgs else 'None'},bg={'Some' if bgs else 'None'}"
+        ok_paths = [p for p in paths if hir.path_feasible(p, val) and p.exit != "ret-err"]
+        for p in ok_paths:
+            if p.exit not in ("value", "ret"):
                 rep.bad("order", b["path"], "unexpected-exit", f"path leaves by {p.exit}", loc(b))
                 continue
-            n_ok_paths += 1
+            seen_cases.add(case)
+            events = []
+            for t in p.trace:
+                if t[0] == "eval":
+                    for c in classify_all(t[1]):
+                        events.append((c, t[1]))
             got = [e[0][0] for e in events]
             want = (["FG"] if fgs else []) + (["BG"] if bgs else []) + ["DATA"] + (["RESET"] if (fgs or bgs) else [])
-            case = f"fg={'Some' if fgs else 'None'},bg={'Some' if bgs else 'None'}"
-            seen_cases.add(case)
             rep.check(got == want, "order", b["path"], f"sequence[{case}]",
                       f"effects on the stream must be {want}; this path performs {got}", loc(b))
-            # the codes render the colours they were given, the data is the caller's
-            args_ok = all((k != "FG" or v == "fg") and (k != "BG" or v == "bg") and (k != "DATA" or v == "data") for (k, v), _ in events)
-            # `if let Some(fg) = fg` rebinding keeps the name; make sure the binding comes from the like-named parameter
+            args_ok = True
+            O = hir.Origins(b["hir"])
+            for (k, v), call in events:
+                if k in ("FG", "BG"):
+                    # the colour rendered is the like-named parameter (possibly re-bound by `if let Some(fg) = fg`)
+                    pieces, fargs = hir.fmt_template(hir.simp(call)["args"][1])
+                    srcs = []
+                    for pc in pieces:
+                        if not isinstance(pc, str):
+                            a = R.res(hir.peel(fargs[pc[1]]))
+                            if hir.is_call(a, "render_fg", "render_bg"):
+                                o, pr = O.of(a["args"][0])
+                                srcs.append((hir.callee(a).split("::")[-1], o.get("id") if o.get("k") == "local" else None))
+                    want_src = ("render_fg", pid["fg"]) if k == "FG" else ("render_bg", pid["bg"])
+                    args_ok = args_ok and want_src in srcs
+                if k == "DATA":
+                    args_ok = args_ok and v == "data"
             rep.check(args_ok, "order", b["path"], f"arguments[{case}]", f"{[e[0] for e in events]}", loc(b))
-            # returned count = result of the data write
+            # returned count = result of the data write: Ok(n) with n = stream.write(data)?, or stream.write(data) returned as is
             v = hir.simp(p.value) if p.value is not None else {}
-            ok = v.get("ctor", "").endswith("Result::Ok") and hir.simp(v["args"][0]).get("k") == "local"
-            if ok:
-                src = lets.get(hir.simp(v["args"][0])["name"])
-                inner = hir.try_inner(src) if src is not None else None
-                ok = inner is not None and classify(inner) == ("DATA", "data")
-            rep.check(ok, "order", b["path"], f"returns-count-of-data-write[{case}]", "Ok(n) with n = stream.write(data)?", loc(b))
+            ok = False
+            if v.get("k") == "call" and v.get("ctor", "").endswith("Result::Ok"):
+                src, proj = O.of(v["args"][0])
+                ok = classify(src) == ("DATA", "data") and proj in (("Ok",), ())
+            elif classify(v) == ("DATA", "data"):
+                ok = True
+            rep.check(ok, "order", b["path"], f"returns-count-of-data-write[{case}]", "the result is the count accepted by stream.write(data)", loc(b))
     rep.check(seen_cases == {"fg=None,bg=None", "fg=Some,bg=None", "fg=None,bg=Some", "fg=Some,bg=Some"}, "order", b["path"], "four-colour-cases",
               f"{sorted(seen_cases)}", loc(b))
-    # every fallible stream call is under `?`
-    calls = [n for n in hir.walk(b["hir"]) if n.get("k") == "call" and classify(n) and classify(n)[0] in ("DATA", "FG", "BG", "RESET")]
+    # every fallible stream call is under `?` or is the returned value itself
+    calls = [n for n in hir.walk(b["hir"]) if n.get("k") == "call" and classify_all(n) and all(c[0] in ("DATA", "FG", "BG", "RESET") for c in classify_all(n))]
     tried = [hir.simp(hir.try_inner(n)) for n in hir.walk(b["hir"]) if n.get("k") == "match" and n.get("src") == "TryDesugar"]
-    rep.check(len(calls) == 4 and all(any(c is t for t in tried) for c in calls), "order", b["path"], "errors-propagate", "each stream call is followed by `?`", loc(b))
+    returned = [hir.simp(n["e"]) for n in hir.walk(b["hir"]) if n.get("k") == "ret" and "e" in n] + [hir.simp(hir.stmts_of(b["hir"])[-1])]
+    rep.check(len(calls) >= 4 and all(any(c is t for t in tried + returned) for c in calls), "order", b["path"], "errors-propagate",
+              "each stream call is followed by `?` (or is the function's result)", loc(b))
 
 
 def rule_impls(facts, rep):
